@@ -225,8 +225,15 @@ def run(ctx: Ctx) -> None:
             for st in ast.walk(l):
                 if isinstance(st, ast.Assign) and any(isinstance(t, ast.Name) and t.id == acc for t in st.targets):
                     rebound.append(st)
+                # anything but append / extend / += shrinks or reorders what was collected so far
+                if isinstance(st, ast.Call) and isinstance(st.func, ast.Attribute) and isinstance(st.func.value, ast.Name) and st.func.value.id == acc and st.func.attr not in ("append", "extend"):
+                    rebound.append(st)
+                if isinstance(st, ast.Delete) and any(acc in {x.id for x in ast.walk(t) if isinstance(x, ast.Name)} for t in st.targets):
+                    rebound.append(st)
+                if isinstance(st, ast.Assign) and any(isinstance(t, ast.Subscript) and isinstance(t.value, ast.Name) and t.value.id == acc for t in st.targets):
+                    rebound.append(st)
     ctx.ob("R11.4", "lexer:LexerTokenStream._extract_comments|accumulator only extended", acc is not None and not rebound,
-           msg=f"`{short(rebound[0]) if rebound else ''}` rebinds the list of doc lines inside the loop: lines collected from earlier comments of the same block are lost", node=rebound[0] if rebound else ex, mod=lex)
+           msg=f"`{short(rebound[0]) if rebound else ''}` rebinds, clears or edits the list of doc lines inside the loop: lines collected from earlier comments of the same block are lost", node=rebound[0] if rebound else ex, mod=lex)
 
     # ---------------------------------------------------------------- R11.5
     ctx.rule("R11.5", "comment scans: every comment token recorded, NEWLINE clears the leading scan, real tokens are kept", minimum=5)
